@@ -93,7 +93,7 @@ struct WhiteNoiseAcceleration::ImplData
         Q_ *= tilde_q_;
 
         LDLT<MatrixXd> chol_ldlt(Q_);
-        sqrt_Q_ = (chol_ldlt.transpositionsP() * MatrixXd::Identity(Q_.rows(), Q_.cols())).transpose() * chol_ldlt.matrixL() * chol_ldlt.vectorD().real().cwiseSqrt().asDiagonal();
+        sqrt_Q_ = (chol_ldlt.transpositionsP() * MatrixXd::Identity(Q_.rows(), Q_.cols())).transpose() * chol_ldlt.matrixL() * chol_ldlt.vectorD().real().cwiseMax(0.0).cwiseSqrt().asDiagonal();
     }
 
     /**
